@@ -120,7 +120,7 @@ CaseKeys == {GMap(<<KV("name", GInt("int", "five")), KV("Name", GStr("upper"))>>
              GMap(<<KV("k", GMap(<<KV("q", GBool(TRUE)), KV("Q", GBool(FALSE))>>))>>),
              GStruct(<<Fld("Inner", TRUE, GMap(<<KV("val", GStr("lo")), KV("Val", GStr("hi"))>>))>>)}
 \* unsupported kinds at every depth
-Bads == {GBad(u) : u \in {"chan", "func", "complex", "array", "mapint", "uintptr"}}
+Bads == {GBad(u) : u \in {"chan", "func", "complex", "array", "mapint", "uintptr", "mapintempty", "mapintnil", "chan-nil", "func-nil"}}
 BadAt(b) == {b, GPtr(b), GSlice(<<GInt("int", "five"), b>>), GMap(<<KV("k", b)>>), GStruct(<<Fld("Name", TRUE, GStr("n")), Fld("Val", TRUE, b)>>),
              GSlice(<<GMap(<<KV("k", GSlice(<<b>>))>>)>>), GStruct(<<Fld("Inner", TRUE, GStruct(<<Fld("Val", TRUE, b)>>))>>),
              GMap(<<KV("a", GInt("int", "five")), KV("b", GPtr(GSlice(<<b>>)))>>)}
